@@ -165,6 +165,14 @@ def rule_R16_1(ctx):
                     r.fail("%s | op=%s delegate-operand-order" % (f.path, op),
                            "operands are handed to %s in swapped order" % g.path)
         exp = EXPECTED.get(op, set())
+        # other diagnostics reachable for cells the table rejects
+        def other_errors(cell):
+            out = set()
+            for bb in pt.vf.blocks_for((op,) + cell):
+                for (a_, v_) in pt.bc(bb):
+                    if a_ == ERR and v_ not in ("InvalidOpTypes", "InvalidEqOpTypes", "AtLoc"):
+                        out.add(v_)
+            return out
         r.inst("%s: accepts %s%s" % (op, sorted(acc),
                                       (" (via %s)" % deleg[0].path) if deleg else ""))
         for a in KINDS:
@@ -176,6 +184,12 @@ def rule_R16_1(ctx):
                         r.fail("%s | op=%s cell=%s,%s no-type-error" % (f.path, op, a, b),
                                "operator %s on (%s, %s) is rejected but not "
                                "with InvalidOpTypes/InvalidEqOpTypes" % (op, a, b))
+                    elif cell not in acc and other_errors(cell):
+                        r.fail("%s | op=%s cell=%s,%s other-error=%s" % (f.path, op, a, b, ",".join(sorted(other_errors(cell)))),
+                               "operator %s on the out-of-domain operands (%s, "
+                               "%s) can stop with %s instead of the type "
+                               "diagnostic naming both operand types"
+                               % (op, a, b, sorted(other_errors(cell))), where=mir.span_loc(f.span))
                     else:
                         r.ok()
                 elif cell in acc:
